@@ -1,0 +1,47 @@
+// Verification hooks (compiled only with -DSPECTRA_VERIF; otherwise this header defines an empty macro
+// and nothing else).  Used by the external verification harnesses in /verif; not part of the library API.
+
+#ifndef SPECTRA_VERIF_HOOKS_H
+#define SPECTRA_VERIF_HOOKS_H
+
+#ifdef SPECTRA_VERIF
+
+// Defined by the harness; granted friend access to internal state (read/drive only from test code)
+struct SpectraVerifAccess;
+
+namespace Spectra {
+namespace verif {
+
+// Observer invoked at the points where a Krylov factorization is passed on
+struct Observer
+{
+    virtual void on(const char* tag, const void* obj) = 0;
+    virtual ~Observer() {}
+};
+
+inline Observer*& observer()
+{
+    static thread_local Observer* ptr = nullptr;
+    return ptr;
+}
+
+}  // namespace verif
+}  // namespace Spectra
+
+#define SPECTRA_VERIF_OBSERVE(tag, obj)                                   \
+    do                                                                    \
+    {                                                                     \
+        if (::Spectra::verif::observer())                                 \
+            ::Spectra::verif::observer()->on(tag, (const void*) (obj));   \
+    } while (0)
+
+#else
+
+#define SPECTRA_VERIF_OBSERVE(tag, obj) \
+    do                                  \
+    {                                   \
+    } while (0)
+
+#endif  // SPECTRA_VERIF
+
+#endif  // SPECTRA_VERIF_HOOKS_H
